@@ -13,12 +13,16 @@ Record access := mkAccess { a_fn : string; a_field : string; a_write : bool; a_l
 (* which lock guards which field: the record counter by the context mutex, the subscriber state by
    the subscriber's CULock *)
 Definition guard (field : string) : string :=
-  if String.eqb field "LocalRecordSequenceNumber" then "ctx" else "CULock".
+  if String.eqb field "LocalRecordSequenceNumber" || String.prefix "ctx." field then "ctx" else "CULock".
 
 Definition holds (l : string) (ls : list string) : bool := existsb (String.eqb l) ls.
 
 (* "unpublished": the object is not yet reachable by another task (constructor) *)
 Definition guarded (a : access) : bool := holds (guard (a_field a)) (a_locks a) || holds "unpublished" (a_locks a).
+
+(* a field nobody writes once it is published needs no lock for reading *)
+Definition written_after_publication (accs : list access) (field : string) : bool :=
+  existsb (fun b => String.eqb (a_field b) field && a_write b && negb (holds "unpublished" (a_locks b))) accs.
 
 (* lock order: a CULock is taken with no lock held; the context mutex with at most a CULock held *)
 Definition acquire_ok (q : string * string * list string) : bool :=
@@ -38,7 +42,7 @@ Fixpoint store_after_load (ops : list string) (loaded : bool) : bool :=
   end.
 
 Definition table_ok (accs : list access) (acqs : list (string * string * list string)) (pool : list (string * list string)) : bool :=
-  forallb guarded accs && forallb acquire_ok acqs && forallb (fun p => negb (store_after_load (snd p) false)) pool.
+  forallb (fun a => guarded a || negb (written_after_publication accs (a_field a))) accs && forallb acquire_ok acqs && forallb (fun p => negb (store_after_load (snd p) false)) pool.
 
 (* ---- threads and locks ---- *)
 
